@@ -156,6 +156,8 @@ def check(prop, tier, only=None, extra_checks=None):
             return False
         return i.props[0] == prop or (prop in (i.quick_also if i.quick_also is not None else default_quick_also(i)))
     insts = [i for i in load_instances() if prop in i.props and in_tier(i)]
+    if os.environ.get("VX_SKIP_QUICK"):      # development sweeps: only the instances the thorough tier adds
+        insts = [i for i in insts if i.tier != "quick"]
     if only:
         insts = [i for i in insts if any(fnmatch.fnmatch(i.id, g) for g in only)]
     say = lambda s: (print(s), sys.stdout.flush())
